@@ -61,11 +61,11 @@ Theorem C01_coerced_argument_conforms_or_null : forall t v,
 Proof. exact coerced1_conforms_or_null. Qed.
 
 Example C01_nonvacuous :
-  run_impl 20 [[(101%N, VNum 2)]] (EFor [(102%N, DList (EList [ENum 1; ENum 2])); (103%N, DRange (ENum 1) (ENum 2))]
-         (EBin Add (EBin Mul (EName 102%N) (EName 101%N)) (EFilter (ECtx [(104%N, EName 103%N)]) (EBin Eq (EName 104%N) (ENum 1)))))
-  = (VList [VNull; VNull; VNull; VNull], [[(101%N, VNum 2)]]) /\
-  fst (run_impl 20 [[(101%N, VNum 2)]] (EFor [(102%N, DList (EList [ENum 1; ENum 2])); (103%N, DRange (ENum 1) (ENum 2))]
-         (EBin Add (EBin Mul (EName 102%N) (EName 101%N)) (EName 103%N)))) = VList [VNum 3; VNum 4; VNum 5; VNum 6].
+  run_impl 20 [[(101%N, vnum 2)]] (EFor [(102%N, DList (EList [enum 1; enum 2])); (103%N, DRange (enum 1) (enum 2))]
+         (EBin Add (EBin Mul (EName 102%N) (EName 101%N)) (EFilter (ECtx [(104%N, EName 103%N)]) (EBin Eq (EName 104%N) (enum 1)))))
+  = (VList [VNull; VNull; VNull; VNull], [[(101%N, vnum 2)]]) /\
+  fst (run_impl 20 [[(101%N, vnum 2)]] (EFor [(102%N, DList (EList [enum 1; enum 2])); (103%N, DRange (enum 1) (enum 2))]
+         (EBin Add (EBin Mul (EName 102%N) (EName 101%N)) (EName 103%N)))) = VList [vnum 3; vnum 4; vnum 5; vnum 6].
 Proof. vm_compute. split; reflexivity. Qed.
 
 (* ---------- "the result depends only on the expression text and on the values bound to its free names" (coq/C01/FreeNames.v) ----------
@@ -107,20 +107,20 @@ Proof. exact unrelated_bindings_irrelevant. Qed.
    the two stacks agree on names e = [vf] and differ on vb *)
 Theorem C01_dynamic_scope_witness :
   names w_e = [w_f] /\ (forall n, In n (names w_e) -> lookup n (w_S 1) = lookup n (w_S 2)) /\
-  eval_spec 5 (w_S 1) w_e = VNum 1 /\ eval_spec 5 (w_S 2) w_e = VNum 2 /\
-  fst (run_impl 5 (w_S 1) w_e) = VNum 1 /\ fst (run_impl 5 (w_S 2) w_e) = VNum 2.
+  eval_spec 5 (w_S 1) w_e = vnum 1 /\ eval_spec 5 (w_S 2) w_e = vnum 2 /\
+  fst (run_impl 5 (w_S 1) w_e) = vnum 1 /\ fst (run_impl 5 (w_S 2) w_e) = vnum 2.
 Proof. exact dynamic_scope_witness. Qed.
 (* why "names that occur" and not "free names": in the code an empty list domain binds nothing (known finding C01 empty-domain),
    so the BOUND vx of  for vx in [], vy in [1] return vx  is looked up outside; in the semantics the result is [] *)
 Theorem C01_bound_name_leak_witness :
-  fst (run_impl 5 [[(l_x, VNum 1)]] l_e) = VList [VNum 1] /\ fst (run_impl 5 [[(l_x, VNum 2)]] l_e) = VList [VNum 2] /\
-  eval_spec 5 [[(l_x, VNum 1)]] l_e = VList [] /\ eval_spec 5 [[(l_x, VNum 2)]] l_e = VList [].
+  fst (run_impl 5 [[(l_x, vnum 1)]] l_e) = VList [vnum 1] /\ fst (run_impl 5 [[(l_x, vnum 2)]] l_e) = VList [vnum 2] /\
+  eval_spec 5 [[(l_x, vnum 1)]] l_e = VList [] /\ eval_spec 5 [[(l_x, vnum 2)]] l_e = VList [].
 Proof. exact bound_name_leak_witness. Qed.
 Example C01_free_names_nonvacuous :
   (forall n, In n (names x_e) -> in_names x_e n = true) /\
   (forall n v, in_names x_e n = true -> lookup n x_S = Some v -> aclosed (in_names x_e) v = true) /\
   (forall n, in_names x_e n = true -> lookup n x_S = lookup n x_S') /\ x_S <> x_S' /\
-  fst (run_impl 20 x_S x_e) = VList [VNum 3; VNum 5] /\ fst (run_impl 20 x_S' x_e) = VList [VNum 3; VNum 5].
+  fst (run_impl 20 x_S x_e) = VList [vnum 3; vnum 5] /\ fst (run_impl 20 x_S' x_e) = VList [vnum 3; vnum 5].
 Proof. exact nonvacuous. Qed.
 
 Print Assumptions C01_machine_refines_semantics.
